@@ -1,0 +1,4 @@
+fn main() {
+    // declares the `--cfg iroh_verif` name used by the verification hooks (off in normal builds)
+    println!("cargo:rustc-check-cfg=cfg(iroh_verif)");
+}
